@@ -173,7 +173,7 @@ impl Share {
     let mut slice = bytes;
 
     // A: AccessStructure
-    let a = AccessStructure::from_bytes(&slice[..ACCESS_STRUCTURE_LENGTH])?;
+    let a = AccessStructure::from_bytes(slice.get(..ACCESS_STRUCTURE_LENGTH)?)?;
     slice = &slice[ACCESS_STRUCTURE_LENGTH..];
 
     // S: star_sharks::Share
